@@ -260,6 +260,13 @@ theorem wb_granted_of_dist_zero (i : Nat) (hi : i < c.n) (s : ShState) (hg : s.g
     (h : RoundRobin.dist c.n s.grant i = 0) : s.grant = i :=
   RoundRobin.dist_eq_zero hg hi h
 
+/-- A waiting master that has sat through `n-1` cycles in which the owner had released the bus owns it. -/
+theorem wb_granted_within (i : Nat) (hi : i < c.n) (s : ShState) (hg : s.grant < c.n) (ins : List BusIn)
+    (hreq : ∀ x ∈ ins, (x.ms i).cyc = true) (h : c.n - 1 ≤ idleWaits c i s ins) :
+    ((Shared.machine c).runFrom s ins).grant = i := by
+  have hb := wb_bounded_wait c i hi s hg ins hreq
+  apply RoundRobin.dist_eq_zero (Shared.grant_lt_runFrom c s hg ins) hi
+  omega
 /-- Terminations seen by master `i` along a run / terminations issued by slaves for strobes of master `i`
     (cycles in which `i` owns the bus, drives `cyc & stb` to a matching slave, and that slave terminates). -/
 def termsSeen (i : Nat) (s : ShState) : List BusIn → Nat
@@ -337,6 +344,32 @@ example :
     ((Shared.machine cfgA).run [xA]).grant = 0 ∧ ((Shared.machine cfgA).run [xA, xA']).grant = 1 ∧
     grantChanges cfgA (Shared.init cfgA) [xA, xA'] = 1 ∧ idleWaits cfgA 1 (Shared.init cfgA) [xA, xA'] = 1 ∧
     RoundRobin.dist cfgA.n (Shared.init cfgA).grant 1 = 1 := by decide
+
+/-- Why `SlavesBehaved` is a hypothesis: the decoder ORs the `ack` of ALL slaves, so a slave that acknowledges
+    without being addressed terminates the owner's cycle to another slave (here: master 0 addresses slave 1,
+    which is silent; slave 0 acknowledges unasked; master 0 sees `ack`).  This is a protocol violation of the
+    slave, not of the interconnect; the model reproduces it faithfully. -/
+example :
+    let x : BusIn := { ms := fun _ => { cyc := true, stb := true, adr := 2 },
+                       ss := fun j => if j = 0 then { ack := true, datR := 0x99 } else {} }
+    let o := Shared.out cfgA (Shared.init cfgA) x
+    (o.toS 0).cyc = false ∧ (o.toS 1).cyc = true ∧ (x.ss 1).ack = false ∧ (o.toM 0).ack = true ∧
+    (o.toM 0).datR = 0 := by decide
+
+/-- Non-vacuity of `wb_one_termination_run`: a behaved two-cycle run in which master 0 receives its one
+    termination and master 1 (still waiting for slave 0) none. -/
+example :
+    BehavedRun cfgA (Shared.init cfgA) [xA, xA'] ∧
+    termsSeen cfgA 0 (Shared.init cfgA) [xA, xA'] = 1 ∧ termsIssued cfgA 0 (Shared.init cfgA) [xA, xA'] = 1 ∧
+    termsSeen cfgA 1 (Shared.init cfgA) [xA, xA'] = 0 := by
+  refine ⟨⟨?_, ?_, trivial⟩, by decide, by decide, by decide⟩
+  · intro j hj h
+    have : j = 0 ∨ j = 1 := by simp [cfgA] at hj; omega
+    rcases this with rfl | rfl
+    · simp [sTerm, xA] at h
+    · decide
+  · intro j hj h
+    simp [sTerm, xA'] at h
 
 /-- 1 master × 2 slaves with `register=True`. -/
 def cfgR : ShCfg := { n := 1, m := 2, dec := fun j a => (a >>> 1) == j, reg := true, timeout := none, dw := 8 }
@@ -597,6 +630,42 @@ theorem xb_bounded_wait (i j : Nat) (hi : i < c.n) (hj : j < c.m) (s : XbState) 
   have h2 := RoundRobin.rr_stalls_bounded hi (Crossbar.reqs c j ins) hg hreq'
   exact ⟨h1.1, h2, h1.2⟩
 
+def xbTermsSeen (i : Nat) (s : XbState) : List BusIn → Nat
+  | [] => 0
+  | x :: rest => (if mTerm (Crossbar.out c s x) i = true then 1 else 0) + xbTermsSeen i (Crossbar.next c s x) rest
+
+def xbTermsIssued (i : Nat) (s : XbState) : List BusIn → Nat
+  | [] => 0
+  | x :: rest =>
+    (if ∃ j, j < c.m ∧ Crossbar.grant s j = i ∧ c.dec j (x.ms i).adr = true ∧ (x.ms i).cyc = true ∧
+        (x.ms i).stb = true ∧ sTerm x j = true then 1 else 0) + xbTermsIssued i (Crossbar.next c s x) rest
+
+def XbBehavedRun (s : XbState) : List BusIn → Prop
+  | [] => True
+  | x :: rest => SlavesBehaved c.m (Crossbar.out c s x) x ∧ XbBehavedRun (Crossbar.next c s x) rest
+
+/-- Along every run of the crossbar with behaved slaves each master sees exactly as many terminations as slaves
+    issued for its own presented strobes. -/
+theorem xb_one_termination_run (i : Nat) :
+    ∀ (ins : List BusIn) (s : XbState), XbBehavedRun c s ins → xbTermsSeen c i s ins = xbTermsIssued c i s ins := by
+  intro ins
+  induction ins with
+  | nil => intro s _; rfl
+  | cons x rest ih =>
+    intro s hb
+    have h := (xb_one_termination c s x hb.1).1 i
+    simp only [xbTermsSeen, xbTermsIssued]
+    rw [ih _ hb.2]
+    by_cases hm : mTerm (Crossbar.out c s x) i = true
+    · rw [if_pos hm, if_pos (h.1 hm)]
+    · rw [if_neg hm, if_neg (fun hh => hm (h.2 hh))]
+
+theorem xb_granted_within (i j : Nat) (hi : i < c.n) (hj : j < c.m) (s : XbState) (hg : Crossbar.GrantsOk c s)
+    (ins : List BusIn) (hreq : ∀ x ∈ ins, Crossbar.colReq c x j i = true) (h : c.n - 1 ≤ xbIdleWaits c i j s ins) :
+    Crossbar.grant ((Crossbar.machine c).runFrom s ins) j = i := by
+  have hb := xb_bounded_wait c i j hi hj s (hg j hj) ins hreq
+  apply RoundRobin.dist_eq_zero (Crossbar.grantsOk_runFrom c s hg ins j hj) hi
+  omega
 end CrossbarThms
 
 /-! ### Non-vacuity and negative witness (Crossbar), point-to-point -/
